@@ -101,7 +101,7 @@ func NewCompW(e *Engine, secret string) *CompW {
 }
 
 func (w *CompW) CatchAll() {
-	w.Router.NewRoute().HandlerFunc(func(s xmpp.Sender, p stanza.Packet) {
+	h := xmpp.HandlerFunc(func(s xmpp.Sender, p stanza.Packet) {
 		kind, id, typ := packetInfo(p)
 		w.Handled = append(w.Handled, Handled{Seq: len(w.e.Log), At: w.e.Now(), Kind: kind, ID: id, Type: typ, From: packetFrom(p), Task: w.e.current})
 		w.e.Logf("cb.handler", "%s id=%s type=%s from=%s", kind, id, typ, packetFrom(p))
@@ -112,6 +112,10 @@ func (w *CompW) CatchAll() {
 			w.OnPacket(s, p)
 		}
 	})
+	// (the routes of a typical application in front of the catch-all, see CW.CatchAll)
+	w.Router.NewRoute().IQNamespaces("jabber:iq:version", "http://jabber.org/protocol/disco#info").HandlerFunc(h)
+	w.Router.NewRoute().Packet("message").StanzaType("chat").HandlerFunc(h)
+	w.Router.NewRoute().HandlerFunc(h)
 }
 
 func (w *CompW) Create() error {
